@@ -285,13 +285,19 @@ pub fn fair_suffix(sim: &mut Sim) {
     for i in 0..nn {
         // group commit deliberately withholds commitment until two groups hold an entry
         sim.call(i, Call::EnableGroupCommit(false));
+        // the SetCheckQuorum knob is per node; a cluster with mixed settings can wedge by design
+        // (lease holders ignore the vote requests of a node that in turn ignores stale heartbeats)
+        let cq = sim.nodes[i].cfg.check_quorum;
+        sim.call(i, Call::SetCheckQuorum(cq));
         let cap = sim.nodes[i].cfg.max_inflight_msgs as u64;
         for j in 0..nn + 2 {
             sim.call(i, Call::AdjustInflight(j as u64 + 1, cap));
         }
     }
     let inject = sim.mon.as_ref().map_or(false, |m| m.inj("progress"));
-    let bound = 260;
+    // 260 rounds (> 15 election timeouts) normally; elections are randomized, so a run that is
+    // still electing (terms keep rising, nodes with different election_tick) gets a long extension
+    let mut bound = 260;
     let mut v = view(sim);
     let mut r = 0;
     while r < bound && !(v.converged && !inject) && !sim.halted {
@@ -300,6 +306,9 @@ pub fn fair_suffix(sim: &mut Sim) {
         r += 1;
         if inject && r > 30 {
             break;
+        }
+        if r == bound && bound == 260 && v.leaders.is_empty() {
+            bound = 2500;
         }
     }
     if sim.halted {
@@ -327,8 +336,18 @@ pub fn fair_suffix(sim: &mut Sim) {
                 }
             }
         }
-        let kind = if req_dead { "stuck-request-snapshot" } else { "stuck" };
-        sim.with_mon(|m, _| m.fail(kind, format!("after {} fair rounds (all nodes running, every message delivered, regular ticks): {}", bound, if why.is_empty() { "injected".to_string() } else { why })));
+        let mut wedged = false;
+        for n in &sim.nodes {
+            if let Some(d) = n.driver.as_ref() {
+                let r = &d.node.raft;
+                let camp = r.state == StateRole::Candidate || r.state == StateRole::PreCandidate;
+                if camp && !r.promotable() {
+                    wedged = true;
+                }
+            }
+        }
+        let kind = if wedged { "stuck-nonvoter-candidate" } else if req_dead { "stuck-request-snapshot" } else if v.leaders.is_empty() { "stuck-no-leader" } else { "stuck" };
+        sim.with_mon(|m, _| m.fail(kind, format!("after {} fair rounds (all nodes running, every message delivered, regular ticks): {}", r, if why.is_empty() { "injected".to_string() } else { why })));
         return;
     }
     // a fresh proposal must be applied on every running member
